@@ -443,6 +443,177 @@ def check_magic(rep, mod):
                 (name, 'return %s via %s' % (bad[0][0][1] if bad else '', ' -> '.join(bad[0][1][:6])) if bad else '', code), key='R-HDR-MAGIC|%d' % k, sample='%s mismatch -> %d only' % (name, code))
 
 
+GZ_FIELDS = ['text', 'time', 'xflags', 'os', 'extra', 'extra_buf_len', 'extra_len', 'name', 'name_buf_len', 'comment', 'comment_buf_len', 'hcrc', 'flags']
+Z_FIELDS = ['info', 'level', 'dict_id', 'dict_flag']
+
+
+def check_hdr_persist(rep, mod):
+    """The header readers are resumable (R-HDR-RESUME), and part of what a resumed call needs lives in the HEADER STRUCTURE, not in the inflate state: fields the reader
+    reads before it has written them on some path from its entry (and writes elsewhere), and fields the caller reads after the call that the reader does not write on every
+    path.  A library function that calls a reader on a header object of its own (a local) and can be entered again for the same header therefore has to fill those fields
+    from storage that survives between calls before the call, and to save them after it."""
+    R = rep.rule('R-HDR-PERSIST', 'every call of isal_read_gzip_header / isal_read_zlib_header from a library function on a header object local to that function: either the function sets block_state to '
+                 'ISAL_BLOCK_NEW_HDR on every path before the call (one-shot: the reader never resumes), or (a) each resume field of the reader - read through the header parameter before being written on some path '
+                 'from the entry, and written by the reader - and each field the caller reads after the call that the reader leaves unwritten on some path receives, before the call, a value that depends on the '
+                 'inflate state (a load from it, or a store guarded by a test of it), and (b) each resume field is stored into the inflate state after the call: a fresh header per call cannot resume', floor=4,
+                 unit='call sites')
+    names = {}
+    for st, fl in (('struct isal_gzip_header', GZ_FIELDS), ('struct isal_zlib_header', Z_FIELDS)):
+        names[st] = {o: n for n, o in field_offsets(st, fl).items()}
+    so = field_offsets('struct inflate_state', ['block_state'])['block_state']
+    K, drop = mirror.c_values('default', ['igzip_lib.h'], [('NEW', 'ISAL_BLOCK_NEW_HDR')], 'c19_newhdr')
+    if drop:
+        raise AnalysisBroken('ISAL_BLOCK_NEW_HDR not found')
+    readers = {}
+    for rn, st in (('isal_read_gzip_header', 'struct isal_gzip_header'), ('isal_read_zlib_header', 'struct isal_zlib_header')):
+        r = mod.funcs.get(rn)
+        if r is None:
+            raise AnalysisBroken(rn + ' not found')
+        P = irrules.prov(mod, r)
+
+        def hoff(ptr):
+            at = P.atoms(ptr)
+            if len(at) == 1:
+                a = next(iter(at))
+                if a[0] == 'param' and a[1] == 1:
+                    return a[2]
+            return None
+        # must-written offsets at block entry (forward, intersection)
+        IN = {b: None for b in r.order}
+        IN[r.entry()] = frozenset()
+        changed = True
+        ue, written = set(), set()
+        while changed:
+            changed = False
+            for b in r.order:
+                if IN[b] is None:
+                    continue
+                cur = set(IN[b])
+                for i in r.blocks[b].insns:
+                    if i.op == 'load':
+                        o = hoff(i.ops[0])
+                        if o is not None and o not in cur:
+                            ue.add(o)
+                    elif i.op == 'store':
+                        o = hoff(i.ops[1])
+                        if o is not None:
+                            cur.add(o)
+                            written.add(o)
+                for s_ in r.blocks[b].succs:
+                    new = frozenset(cur) if IN[s_] is None else IN[s_] & frozenset(cur)
+                    if new != IN[s_]:
+                        IN[s_] = new
+                        changed = True
+        # offsets written on every path from a RESUME entry (a case of the switch on block_state other than ISAL_BLOCK_NEW_HDR) to a return that does not park the reader again: what a resumed call leaves
+        # unwritten is what the caller must not read from a fresh header (a call that starts at the beginning of the header behaves as in the one-piece case by construction)
+        Ps = P
+        sw = [i for i in r.all_insns() if i.op == 'switch' and r.defs.get(irrules._strip(r, i.ops[0])) is not None and r.defs[irrules._strip(r, i.ops[0])].op == 'load'
+              and Ps.atoms(r.defs[irrules._strip(r, i.ops[0])].ops[0]) == {('param', 0, so)}]
+        if len(sw) != 1:
+            raise AnalysisBroken('%s: expected one switch on state->block_state, found %d' % (rn, len(sw)))
+        cs = sw[0].extra['cases'].items() if isinstance(sw[0].extra['cases'], dict) else sw[0].extra['cases']
+        targets = sorted({t for k, t in cs if int(k) != K['NEW']})
+        always = None
+        for T in targets:
+            INT = {b: None for b in r.order}
+            INT[T] = frozenset()
+            ch = True
+            while ch:
+                ch = False
+                for b in r.order:
+                    if INT[b] is None:
+                        continue
+                    cur = set(INT[b])
+                    parks = False
+                    for i in r.blocks[b].insns:
+                        if i.op == 'store' and hoff(i.ops[1]) is not None:
+                            cur.add(hoff(i.ops[1]))
+                        if i.op == 'store' and re.match(r'^\d+$', i.ops[0]) and int(i.ops[0]) != K['NEW'] and Ps.atoms(i.ops[1]) == {('param', 0, so)}:
+                            parks = True          # the reader parks itself for another call: the caller gets "more input needed", not a parsed header
+                    if parks:
+                        continue
+                    if r.blocks[b].insns[-1].op == 'ret':
+                        always = cur if always is None else always & cur
+                    for s_ in r.blocks[b].succs:
+                        nw = frozenset(cur) if INT[s_] is None else INT[s_] & frozenset(cur)
+                        if nw != INT[s_]:
+                            INT[s_] = nw
+                            ch = True
+        if not targets:
+            always = set(written)
+        readers[rn] = dict(st=st, resume=ue & written, always=always or set(), written=written)
+    nsites = 0
+    for gn, g in sorted(mod.funcs.items()):
+        if gn in readers:
+            continue
+        calls = [i for i in g.all_insns() if i.op == 'call' and i.callee in readers]
+        if not calls:
+            continue
+        P = irrules.prov(mod, g)
+        sidx = [n for n, (t, _) in enumerate(g.params) if 'struct.inflate_state*' in t]
+        for c in calls:
+            rd = readers[c.callee]
+            hat = P.atoms(c.ops[1])
+            if len(hat) != 1 or next(iter(hat))[0] != 'alloca' or not sidx:
+                continue          # the header belongs to the caller's caller (a wrapper that forwards its argument): nothing is lost here
+            H = next(iter(hat))[1]
+            nsites += 1
+            R.instance()
+            where = mod.where(g, c)
+            # one-shot: a store of NEW_HDR to state->block_state in a block that dominates the call
+            oneshot = False
+            for i in g.all_insns():
+                if i.op == 'store' and i.ops[0] == str(K['NEW']) and P.atoms(i.ops[1]) == {('param', sidx[0], so)} and (g.dominates(i.block, c.block)):
+                    if i.block != c.block or g.blocks[i.block].insns.index(i) < g.blocks[c.block].insns.index(c):
+                        oneshot = True
+            if oneshot:
+                R.ok(1, sample='%s: %s always starts at ISAL_BLOCK_NEW_HDR (one-shot)' % (gn, c.callee))
+                continue
+            after = g.reachable_avoiding(c.block, set())
+            cidx = g.blocks[c.block].insns.index(c)
+
+            def is_after(i):
+                return (i.block == c.block and g.blocks[i.block].insns.index(i) > cidx) or (i.block != c.block and i.block in after)
+            need = set(rd['resume'])
+            for i in g.all_insns():
+                if i.op == 'load' and is_after(i):
+                    at = P.atoms(i.ops[0])
+                    if len(at) == 1 and next(iter(at))[:2] == ('alloca', H) and next(iter(at))[2] in rd['written'] and next(iter(at))[2] not in rd['always']:
+                        need.add(next(iter(at))[2])
+            nm = names[rd['st']]
+            for o in sorted(need):
+                okv = False
+                for i in g.all_insns():
+                    if i.op != 'store' or P.atoms(i.ops[1]) != {('alloca', H, o)} or is_after(i) and i.block != c.block:
+                        continue
+                    if i.block == c.block and g.blocks[i.block].insns.index(i) > cidx:
+                        continue
+                    if c.block not in g.reachable_avoiding(i.block, set()):
+                        continue
+                    if any(d[0] == 'mem' and d[1][0] == 'param' and d[1][1] == sidx[0] for d in P.deps(i.ops[0])):
+                        okv = True
+                    elif not g.dominates(i.block, c.block):
+                        for pb in g.blocks[i.block].preds:
+                            t = g.blocks[pb].insns[-1]
+                            if t.op == 'br' and t.extra.get('cond') and any(d[0] == 'mem' and d[1][0] == 'param' and d[1][1] == sidx[0] for d in P.deps(t.extra['cond'])):
+                                okv = True
+                kind = 'is read by %s before it is written when the reader resumes' % c.callee if o in rd['resume'] else 'is read here after the call but not written by %s on every path' % c.callee
+                R.check(okv, where, '%s: header field %s %s, but before this call it only ever gets the value of a freshly initialised header: the header object is local to %s and does not survive between calls, '
+                        'so a header that is cut by a call boundary is parsed differently from the same header in one piece' % (gn, nm.get(o, '+%d' % o), kind, gn), key='R-HDR-PERSIST|%s|%s|restore|%s' % (gn, c.callee, nm.get(o, o)),
+                        sample='%s: %s.%s restored from the inflate state before %s' % (gn, H, nm.get(o, o), c.callee))
+            for o in sorted(rd['resume']):
+                saved = False
+                for i in g.all_insns():
+                    if i.op == 'store' and is_after(i):
+                        at = P.atoms(i.ops[1])
+                        if len(at) == 1 and next(iter(at))[0] == 'param' and next(iter(at))[1] == sidx[0] and ('mem', ('alloca', H, o)) in P.deps(i.ops[0]):
+                            saved = True
+                R.check(saved, where, '%s: header field %s is resume state of %s but is not stored into the inflate state after the call' % (gn, nm.get(o, '+%d' % o), c.callee),
+                        key='R-HDR-PERSIST|%s|%s|save|%s' % (gn, c.callee, nm.get(o, o)), sample='%s: %s.%s saved into the inflate state after %s' % (gn, H, nm.get(o, o), c.callee))
+    if nsites == 0:
+        raise AnalysisBroken('R-HDR-PERSIST: no library function calls a header reader on a header object of its own')
+
+
 def main(tier):
     rep = Report('C19', tier, level='other')
     rep.undecided = UNDECIDED
@@ -460,6 +631,7 @@ def main(tier):
     rep.attempt(check_field_pairing, rep, mod)
     rep.attempt(check_resume, rep, mod)
     rep.attempt(check_resume_offset, rep, mod)
+    rep.attempt(check_hdr_persist, rep, mod)
     rep.attempt(check_null_skip, rep, mod)
     import c17
     rep.attempt(c17.check_mask_range, rep, 'default')      # the CMF byte written by _zlib_header_in_buffer: CINFO for every hist_bits
